@@ -26,7 +26,9 @@ RULE = ('instants = integer microseconds over the whole datetime range (2-day '
         '(T, seconds, e) so that the distance to the boundary is e: one third '
         'e=0, one third e=+-1us, rest random; seconds are ints or k/10^6 '
         'floats of either sign; t rendered naive / aware / ISO string; clock '
-        'set through set_time_override or TimeFixture. Non-trivial: aware '
+        'set through set_time_override or TimeFixture; a deterministic family '
+        'is repeated with the process-local zone (TZ + tzset) set to four '
+        'non-UTC POSIX zones (localzone). Non-trivial: aware '
         'non-UTC t, or |e| <= 1us, or microsecond != 0 through marshalling / '
         'timestamp, or string input, or >= 1 advance step; distinct by the '
         'argument tuple.')
@@ -835,6 +837,81 @@ def fold_pairs(col):
     col.exhaustive[sub] = True
 
 
+import contextlib
+
+
+@contextlib.contextmanager
+def process_zone(name):
+    """Run with the process-wide local time zone set to the POSIX TZ string
+    `name` (glibc parses these without tzdata).  The statement speaks of UTC
+    throughout, so no answer may depend on where the process runs."""
+    import os
+    import time
+    if not name:
+        yield
+        return
+    saved = os.environ.get('TZ')
+    os.environ['TZ'] = name
+    time.tzset()
+    try:
+        yield
+    finally:
+        if saved is None:
+            os.environ.pop('TZ', None)
+        else:
+            os.environ['TZ'] = saved
+        time.tzset()
+
+
+PROCESS_ZONES = ('AAA-05:30', 'EST5EDT,M3.2.0,M11.1.0', 'XXX+11',
+                 'NZST-12NZDT,M9.5.0,M4.1.0/3')
+
+
+def local_zone(col, zone):
+    """Ambient environment: the deterministic families again with the
+    process's local zone away from UTC (TZ + tzset)."""
+    sub = 'localzone'
+    A = to_us(datetime.datetime(2001, 2, 3, 4, 5, 6, 7))
+    B = to_us(datetime.datetime(1969, 12, 31, 23, 59, 59, 999999))
+    C = to_us(datetime.datetime(2038, 1, 19, 3, 14, 8))
+    D = to_us(datetime.datetime(2021, 3, 14, 2, 30, 0))     # US DST gap
+    E = to_us(datetime.datetime(2021, 11, 7, 1, 30, 0, 5))  # US repeated hour
+    with process_zone(zone):
+        for T in (A, B, C, D, E, LO, HI):
+            for mode in ('direct', 'fixture'):
+                for ops in ([], [['delta', 1500000]], [['int', 3600]],
+                            [['set', D], ['frac', -250000]]):
+                    if any(not LO <= T + (o[1] if o[0] != 'int' else o[1] * US)
+                           <= HI for o in ops if o[0] != 'set'):
+                        continue
+                    oracle_override(col, {'T': T, 'ops': ops, 'mode': mode,
+                                          'env_tz': zone}, sub)
+            for tz in (['naive'], ['utc', 'timezone.utc'], ['fixed', 330], ['fixed', -480]):
+                oracle_normalize(col, {'wall': T, 'tz': tz, 'env_tz': zone},
+                                 sub)
+                if tz[0] != 'fixed' or LO + DAY_US < T < HI - DAY_US:
+                    oracle_isoformat(col, {'wall': T, 'tz': tz,
+                                           'style': 'isoformat',
+                                           'env_tz': zone}, sub)
+            for tz in (['naive'], ['utc', 'timezone.utc']):
+                for kind in ('arg', 'default'):
+                    if kind == 'default' and tz != ['naive']:
+                        continue
+                    oracle_marshal(col, {'kind': kind, 'wall': T, 'tz': tz,
+                                         'env_tz': zone}, sub)
+            if LO + DAY_US < T < HI - DAY_US:
+                for fn in ('older', 'newer', 'soon'):
+                    for e in (0, 1, -1):
+                        that = T - 60 * US - e if fn == 'older' else \
+                            T + 60 * US + e
+                        for tz in (['naive'], ['utc', 'timezone.utc'], ['fixed', 330]):
+                            oracle_compare(col, {
+                                'fn': fn, 'T': T, 'that': that,
+                                's': ['int', 60], 'tz': tz, 'as_str': False,
+                                'mode': 'direct', 'env_tz': zone}, sub)
+    col.exhaustive.setdefault(sub, False)
+
+
 def tasks(tier, seed):
     if tier == 'quick':
         n, shards = 2000, 1
@@ -842,6 +919,8 @@ def tasks(tier, seed):
         n, shards = 8000, 2
     out = [Task('foldpairs', fold_pairs),
            Task('override', override_histories)]
+    for z in PROCESS_ZONES:
+        out.append(Task('localzone', local_zone, zone=z))
     step = 360
     for lo in range(-1439, 1440, step):
         out.append(Task('offsets', offsets_exhaustive, lo=lo,
@@ -873,6 +952,10 @@ def replay(rec):
     case = rec['case']
     sub = rec.get('sub', '')
     col = core.Collector()
+    if case.get('env_tz'):
+        with process_zone(case['env_tz']):
+            return replay({'case': {k: v for k, v in case.items()
+                                    if k != 'env_tz'}, 'sub': sub})
     if sub in _ORACLES:
         return _ORACLES[sub](col, case)
     # cases recorded by the exhaustive offsets sub-check: dispatch on shape
